@@ -3,3 +3,6 @@
 /venv/bin/python -c "import hypothesis" 2>/dev/null || \
   /venv/bin/pip install -q --no-index --find-links /opt/veriftools/wheels hypothesis
 /venv/bin/python -c "import hypothesis, mofun, numpy, scipy; print('setup ok: hypothesis', hypothesis.__version__)"
+# optional second engine (thorough tier): atheris into /verif/.deps
+PYTHONPATH=/verif/.deps /venv/bin/python -c "import atheris" 2>/dev/null || \
+  /venv/bin/pip install -q --no-index --find-links /opt/veriftools/wheels --target /verif/.deps atheris 2>/dev/null || true
